@@ -529,9 +529,12 @@ for reg, rn in ((0, 'npc'), (1, 'eqr'), (2, 'spc')):
                                             ('; |l| <= t' if bits == 255 else '; exact l for cosines with <= %d significant bits' % bits) if bits else '')))
 for reg, rn in ((0, 'npc'), (1, 'eqr'), (2, 'spc')):
     for neg in (0, 1):
-        _c01.append(H('c01_b_%s_%s' % (rn, 'neg' if neg else 'pos'), 'k_c01_b(%d, %s);' % (reg, 'true' if neg else 'false'), tiers=Q, timeout=2400, mem_gb=6, unwind=3,
-                      stubs=_LIBM, inputs=[('lon', 'f64'), ('lat', 'f64')], replay='c01_all_depths', covers=['second turn'],
-                      domain='coarse placement on the real Layer::d0h_lh_in_d0c: lon %s, %s region: the reference projection lies within 2^-20 of the returned base cell' % ('< 0' if neg else '>= 0', rn)))
+        for cls in ((255,) if reg != 1 else (0, 1, 2)):
+            _c01.append(H('c01_b_%s_%s%s' % (rn, 'neg' if neg else 'pos', '' if cls == 255 else '_c%d' % cls),
+                          'k_c01_b(%d, %s, %d);' % (reg, 'true' if neg else 'false', cls), tiers=Q, timeout=2400, mem_gb=6, unwind=3,
+                          stubs=_LIBM, inputs=[('lon', 'f64'), ('lat', 'f64')], replay='c01_all_depths', covers=['second turn'] + (['class non empty'] if reg == 1 else []),
+                          domain='coarse placement on the real Layer::d0h_lh_in_d0c: lon %s, %s region%s: the reference projection lies within 2^-20 of the returned base cell'
+                                 % ('< 0' if neg else '>= 0', rn, '' if cls == 255 else ', positions mapped to a %s base cell' % ['north polar', 'south polar', 'equatorial'][cls])))
 for (lo, hi) in ((0, 0), (1, 8), (9, 16), (17, 29)):
     _c01.append(H('c01_s_d%d_%d' % (lo, hi), 'k_c01_s(%d, %d);' % (lo, hi), tiers=Q, timeout=1800, mem_gb=8, unwind=max(4, hi + 1),
                   stubs=[(a, b % 'c01') for a, b in _CUT], inputs=[('depth', 'u8'), ('d0h', 'u8'), ('l', 'f64'), ('h', 'f64')], replay='c01_pullback',
